@@ -38,7 +38,25 @@ pub fn compute_float_f32(q: i64, w: u64, lossy: bool) -> ExtendedFloat80 {
 
 /// Native-driver dispatch for kernels added after the first batch.
 pub mod extra {
-    pub fn call(kernel: &str, _a: &[&str]) -> String {
-        format!("UNKNOWN-KERNEL {}", kernel)
+    pub fn call(kernel: &str, a: &[&str]) -> String {
+        match kernel {
+            "lemire_lossy_rel_f64" => format!("{}", super::lemire_lossy_rel_f64(a[0].parse().unwrap(), a[1].parse().unwrap()) as u8),
+            "lemire_lossy_rel_f32" => format!("{}", super::lemire_lossy_rel_f32(a[0].parse().unwrap(), a[1].parse().unwrap()) as u8),
+            _ => format!("UNKNOWN-KERNEL {}", kernel),
+        }
     }
+}
+
+/// Relational wrapper: lossy vs exact Eisel-Lemire (C19).
+#[inline(never)]
+pub fn lemire_lossy_rel_f64(q: i64, w: u64) -> bool {
+    let a = lexical_parse_float::lemire::compute_float::<f64>(q, w, true);
+    let b = lexical_parse_float::lemire::compute_float::<f64>(q, w, false);
+    b.exp < 0 || (a.mant == b.mant && a.exp == b.exp)
+}
+#[inline(never)]
+pub fn lemire_lossy_rel_f32(q: i64, w: u64) -> bool {
+    let a = lexical_parse_float::lemire::compute_float::<f32>(q, w, true);
+    let b = lexical_parse_float::lemire::compute_float::<f32>(q, w, false);
+    b.exp < 0 || (a.mant == b.mant && a.exp == b.exp)
 }
